@@ -388,7 +388,12 @@ func (f *File) seekWithoutLocking(offset int64, whence int) (int64, error) {
 
 				// Fail the pending and all future reads instead of crashing the process
 				_ = writer.CloseWithError(err)
+
+				return
 			}
+
+			// Nothing has been restored into the pipe if the entry has no content to restore (i.e. a named pipe or a device node from a foreign archive); end the stream so that the read returns instead of blocking forever
+			_ = writer.Close()
 		}()
 
 		f.readOpReader = reader
@@ -563,7 +568,12 @@ func (f *File) Read(p []byte) (n int, err error) {
 
 				// Fail the pending and all future reads instead of crashing the process
 				_ = writer.CloseWithError(err)
+
+				return
 			}
+
+			// Nothing has been restored into the pipe if the entry has no content to restore (i.e. a named pipe or a device node from a foreign archive); end the stream so that the read returns instead of blocking forever
+			_ = writer.Close()
 		}()
 
 		f.readOpReader = reader
